@@ -14,49 +14,53 @@
   THE RUN by the instrumented elimination `Mat.gaussT` (GaussRounding.lean): the same computation —
   it calls the model's `maxAbsInColumn`, `partialPivot`, `elimRow` — that additionally records, in a
   `GTrace`, `mult` (the multipliers, rows exchanged along with every later row exchange), `perm`
-  (`perm r` = the row of the input that is now row `r`) and `reg` (no pivot search has fallen back to
-  a row above the diagonal).  `gaussT_forget`: forgetting the trace gives `gaussWithPivot` exactly
+  (`perm r` = the row of the input that is now row `r`) and `reg` (no pivot search has returned a
+  row above the diagonal; always `true`, see below).  `gaussT_forget`: forgetting the trace gives `gaussWithPivot` exactly
   (values and failures, every scalar type).  Notation for a returned state `((m', ŷ), tr)`:
   `GLhat tr` (unit lower: `tr.mult` below the diagonal), `GUhat n m'` (the upper triangle of `m'`),
   `absGLU = |L̂||Û|`, `absGLy = |L̂||ŷ|`.
 
-  THE `max_index = 0` QUIRK — A FINDING.  The pivot search starts from `max_index = 0`; on a pivot
-  sub-column that is EXACTLY zero it returns row `0` and `partial_pivot` exchanges row `k` with row `0`,
-  a FINISHED pivot row.  In exact arithmetic entry `(0,0)` is then an exact `0` and the last division of
-  `backsolve` fails (C01S).  In rounded arithmetic this is FALSE: entry `(0,0)` becomes the rounded
-  residue `fl(m_k0 − fl(elem·m_00))`, which is in general a tiny NON-zero number, no division fails, and
-  `solve_basic` RETURNS a vector that is not the solution of any nearby system.  On the bit-exact
-  `Float` interpretation of the model: `A = [[49,1,0],[1,t,1],[1,t,2]]`, `t = fl(1/49)`, `b = [1,2,3]`
-  gives `x̂ = [4411689430893546, 1, 1.4897…]`, and row 0 of `A x̂ − b` is `≈ 2·10¹⁷` (relative backward
-  error `1`).  `Ex.fallback_returns` below exhibits the same phenomenon inside the standard model
-  (`fl x = (1+u) x`, `u = 2⁻¹⁰`): a run with `reg = false` (`Ex.gaussT_A3_b3`) that returns a value for
-  which every admissible perturbation of row 0 has an entry `≥ 9/10` (`Ex.fallback_not_backward_stable`).  Hence the backward error theorems carry
-  the hypothesis `tr.reg = true` ("the run was regular"), which is a checkable property of the run, is
-  automatic for `n ≤ 2` (`gaussT_regular_small`), and fails only if some computed pivot sub-column
-  (`k ≥ 1`) is exactly zero (`pivotSearch_fl`).  This is the strongest true statement, not a `_partial`.
+  THE PIVOT SEARCH (history of a defect).  The original `max_abs_in_column` started from `max_index = 0`;
+  on a pivot sub-column that is EXACTLY zero it returned row `0`, and `partial_pivot` exchanged row `k`
+  with row `0`, a FINISHED pivot row.  In exact arithmetic entry `(0,0)` is then an exact `0` and the last
+  division of `backsolve` fails (C01S), but in rounded arithmetic it is the rounded residue
+  `fl(m_k0 − fl(elem·m_00))`, in general a tiny NON-zero number, so `solve_basic` RETURNED a vector that is
+  not the solution of any nearby system (on `f64`: `A = [[49,1,0],[1,t,1],[1,t,2]]`, `t = fl(1/49)`,
+  `b = [1,2,3]` gave `x̂ ≈ [4.4·10¹⁵, 1, 1.49]`, relative backward error `1`).  This was found while
+  proving this file — the backward error theorem is false for such runs — and REPAIRED in /repo by the
+  fix commit (`max_index = start_row`); the model follows.  Now the search returns `k ≤ p < n`
+  whenever it returns (`Mat.maxAbsInColumn_ge`, `pivotSearch_fl`), every run is regular
+  (`gaussT_regular`: `tr.reg = true` always), and the theorems below hold for EVERY returned value
+  with `u < 1` as the only hypothesis.  On a numerically singular matrix whose pivot sub-column is
+  exactly zero the search returns `p = k`, the pivot is an exact zero, and the next division is the
+  `.error .arith` of the abstract model (±inf / NaN over IEEE): nothing is returned
+  (`Ex.solveBasic_A3_b3`, the matrix on which the old search returned a wrong vector).
 
   Structural (S), any scalar type
   * `gaussT_forget`            `Except.map Prod.fst (gaussT A b) = gaussWithPivot A b`
   * `solveBasic_traced`        a returned value of `solve_basic` comes from a successful `gaussT`
   * `backsolve_upper_only`     `backsolve` gives the same result on two matrices with the same upper
                                triangle: the residues below the diagonal are irrelevant
-  * `gaussT_regular_small`     `n ≤ 2` ⇒ `reg = true`
+  * `gaussT_regular`           every returned instrumented run has `reg = true`
   Rounding (F)
-  * `pivotSearch_fl`           the pivot search in `Fl M`: `p < n`; `p = 0 ∨ k ≤ p`; `k ≤ p` ⇒ the entry
-                               found dominates the sub-column; `p < k` ⇒ the sub-column is exactly zero
-  * `gauss_backward`           forward elimination (Higham, Thm 9.3, for `[A | b]`): regular run ⇒
-                               `perm` is a permutation `π`, `|l̂_rc| ≤ 1 + u`,
+  * `pivotSearch_fl`           the pivot search in `Fl M`: `k ≤ p < n`, the entry found dominates the
+                               sub-column, and an exactly zero sub-column gives `p = k`
+  * `gauss_backward`           forward elimination (Higham, Thm 9.3, for `[A | b]`): `perm` is a
+                               permutation `π`, `|l̂_rc| ≤ 1 + u`,
                                `|L̂Û − PA| ≤ gq (n−1) |L̂||Û|` and `|L̂ŷ − Pb| ≤ gq (n−1) |L̂||ŷ|`
   * `solveBasic_backward`      CLASSICAL FORM (Higham, Thm 9.4), right-hand side unperturbed:
                                `(A + ΔA) x̂ = b` EXACTLY, `|ΔA| ≤ (gq (n−1) + gq (2n−1)) · Pᵀ|L̂||Û|`
                                (`solve_lu`: `gq n + gq (3n)`; there is no rounded product `P·b` here)
   * `solveBasic_backward_twosided`  `(A + ΔA) x̂ = b + Δb`, `|ΔA| ≤ (gq (n−1) + gq n) · Pᵀ|L̂||Û|`,
                                `|Δb| ≤ gq (n−1) · Pᵀ|L̂||ŷ|`
-  * `solveBasic_backward_small`     `n ≤ 2`: the classical form with no hypothesis on the run
   * `solveBasic_backward_normwise`, `absGLU_rowNorm_le`, `solveBasic_backward_normwise_U`:
                                `‖ΔA‖_∞ ≤ (gq (n−1) + gq (2n−1)) ‖ |L̂||Û| ‖_∞ ≤ … · n (1+u) ‖Û‖_∞`
   * `solveBasic_backward_gamma`     `|ΔA| ≤ γ_{3n} · Pᵀ|L̂||Û|`, `γ_k = k u/(1 − k u)`, when `3 n u < 1`
   Nothing is `_partial`.
+
+  Examples: exact arithmetic (`ΔA = 0`, `A x = b`); the `2 × 2` system of C01F with a row exchange
+  (`Ex.solveBasic_A2_b2`, `Ex.gaussT_A2_b2`); the numerically singular `3 × 3` system `A3` in the model
+  `fl x = (1+u) x`, `u = 2⁻¹⁰`, which is now refused.
 -/
 import Ohsl.Props.C01F
 import Ohsl.Lemmas.GaussRounding
@@ -102,11 +106,12 @@ theorem backsolve_upper_only {n : Nat} {U U' : Mat K} {uu uu' : Nat → Nat → 
   rw [hU.rows] at hj
   rw [hU'.entry i j (by omega) hj, hU.entry i j (by omega) hj, hup i j hij hj]
 
-/-- (S) for `n ≤ 2` every run is regular (the only step is `k = 0`) -/
-theorem gaussT_regular_small {n : Nat} {A : Mat K} {a : Nat → Nat → K} (hA : Mat.Is A n n a)
-    {b : Array K} (hb : b.size = n) (hn2 : n ≤ 2) {s : (Mat K × Array K) × GTrace K}
+/-- (S) **every run is regular**: the pivot search starts at the diagonal row, so whenever the
+instrumented elimination returns, no pivot search has returned a row above the diagonal -/
+theorem gaussT_regular {n : Nat} {A : Mat K} {a : Nat → Nat → K} (hA : Mat.Is A n n a)
+    {b : Array K} (hb : b.size = n) {s : (Mat K × Array K) × GTrace K}
     (h : Mat.gaussT A b = .ok s) : s.2.reg = true :=
-  Mat.gaussT_reg_of_le_two hA.wfn hb hn2 h
+  Mat.gaussT_regular hA.wfn hb h
 
 end Structural
 
@@ -134,22 +139,24 @@ theorem absGLU_nonneg (n : Nat) (tr : GTrace (Fl M)) (m' : Mat (Fl M)) (r c : Na
   Finset.sum_nonneg (fun _ _ => mul_nonneg (abs_nonneg _) (abs_nonneg _))
 
 /-- **the pivot search of `solve_basic` in `Fl M`** (comparisons and `mag` are exact; the search
-starts from `max_index = 0`): the returned row `p` is `< n`; it is `0` or lies on or below the
-diagonal; in the latter case its entry dominates the sub-column; and the fallback `p < k` happens
-only when the whole sub-column is exactly zero -/
+starts from `max_index = start_row`): whenever it returns, the row `p` satisfies `k ≤ p < n`, its
+entry dominates the sub-column `k, …, n−1` of column `k`, and if that whole sub-column is exactly zero
+the search returns the diagonal row `p = k` (whose entry, the pivot, is then an exact zero) -/
 theorem pivotSearch_fl {n k p : Nat} {m : Mat (Fl M)} {mm : Nat → Nat → Fl M}
     (hm : Mat.Is m n n mm) (hk : k < n) (h : Mat.maxAbsInColumn m k k = .ok p) :
-    p < n ∧ (p = 0 ∨ k ≤ p) ∧
-      (k ≤ p → ∀ i, k ≤ i → i < n → |(mm i k).val| ≤ |(mm p k).val|) ∧
-      (p < k → ∀ i, k ≤ i → i < n → (mm i k).val = 0) := by
+    k ≤ p ∧ p < n ∧
+      (∀ i, k ≤ i → i < n → |(mm i k).val| ≤ |(mm p k).val|) ∧
+      ((∀ i, k ≤ i → i < n → (mm i k).val = 0) → p = k) := by
   obtain ⟨h1, h2, h3, h4⟩ := Mat.maxAbsInColumn_fl hm.wfn hk h
-  refine ⟨h1, h2, ?_, ?_⟩
-  · intro hkp i hi1 hi2
-    have := h3 hkp i hi1 hi2
+  refine ⟨h2, h1, ?_, ?_⟩
+  · intro i hi1 hi2
+    have := h3 i hi1 hi2
     rwa [hm.ent_eq hi2 hk, hm.ent_eq h1 hk] at this
-  · intro hpk i hi1 hi2
-    have := h4 hpk i hi1 hi2
-    rwa [hm.ent_eq hi2 hk] at this
+  · intro hz
+    refine h4 ?_
+    intro i hi1 hi2
+    rw [hm.ent_eq hi2 hk]
+    exact hz i hi1 hi2
 
 /-- **Forward elimination with partial pivoting of `[A | b]`, backward error** (Higham, Thm 9.3, for
 the `kij` elimination of `gauss_with_pivot`: multipliers `l̂_ik = fl(m_ik / m_kk)`, updates
